@@ -5,9 +5,11 @@ import (
 	"strings"
 
 	"github.com/free5gc/nas/security"
+
+	"verifharness/hk"
 )
 
-func init() { props["C11"] = runC11 }
+func main() { hk.Main("C11", runC11) }
 
 type c11op struct {
 	k    int // 0 Set 1 SetSQN 2 SetOverflow 3 AddOne 4 Get 5 SQN 6 Overflow
@@ -34,14 +36,14 @@ func (o c11op) coq() string {
 
 // c11history runs ops on a fresh Count (zero value) and returns the observed
 // results; it also evaluates the property directly on the implementation.
-func c11history(r *Run, ops []c11op) (results []string, final uint32) {
+func c11history(r *hk.Run, ops []c11op) (results []string, final uint32) {
 	var c security.Count
 	fail := func(i int, what string) {
 		var d []string
 		for _, o := range ops[:i+1] {
 			d = append(d, o.coq())
 		}
-		r.Fail(Failure{Site: "security.Count", Class: "law", Input: d, Detail: what})
+		r.Fail(hk.Failure{Site: "security.Count", Class: "law", Input: d, Detail: what})
 	}
 	for i, o := range ops {
 		// direct oracle: read the state before (Get masks, harmless below 2^24)
@@ -98,7 +100,7 @@ func c11history(r *Run, ops []c11op) (results []string, final uint32) {
 	return results, c.Get()
 }
 
-func runC11(r *Run) {
+func runC11(r *hk.Run) {
 	r.SetCoq("From NV Require Import Lib.Base Lib.BV C11.Model C11.Corr.\nOpen Scope N_scope.", "case")
 	emit := func(stream string, ops []c11op) {
 		res, final := c11history(r, ops)
@@ -112,7 +114,7 @@ func runC11(r *Run) {
 		}
 		id := r.NextID()
 		desc := strings.Join(os, "; ")
-		r.AddCase(fmt.Sprintf("(%d, 0, %s, (%d, %s))", id, coqList(os), final, coqList(res)), desc)
+		r.AddCase(fmt.Sprintf("(%d, 0, %s, (%d, %s))", id, hk.CoqList(os), final, hk.CoqList(res)), desc)
 		key := ""
 		if carry {
 			key = desc
@@ -160,14 +162,14 @@ func runC11(r *Run) {
 			if c.Get() != v || c.SQN() != uint8(v) || c.Overflow() != uint16(v>>8) {
 				bad++
 				if bad < 5 {
-					r.Fail(Failure{Site: "security.Count", Class: "law", Input: []string{fmt.Sprintf("OpSet %d %d", v>>8, v&255), "OpGet"}, Detail: "reads disagree with the value set"})
+					r.Fail(hk.Failure{Site: "security.Count", Class: "law", Input: []string{fmt.Sprintf("OpSet %d %d", v>>8, v&255), "OpGet"}, Detail: "reads disagree with the value set"})
 				}
 			}
 			c.AddOne()
 			if c.Get() != (v+1)%(1<<24) {
 				bad++
 				if bad < 5 {
-					r.Fail(Failure{Site: "security.Count", Class: "law", Input: []string{fmt.Sprintf("OpSet %d %d", v>>8, v&255), "OpAddOne", "OpGet"}, Detail: "AddOne is not +1 mod 2^24"})
+					r.Fail(hk.Failure{Site: "security.Count", Class: "law", Input: []string{fmt.Sprintf("OpSet %d %d", v>>8, v&255), "OpAddOne", "OpGet"}, Detail: "AddOne is not +1 mod 2^24"})
 				}
 			}
 			r.Evals++
